@@ -18,7 +18,7 @@ import codecs
 import re
 
 import runner
-from dmgen import canon, pick, surrogate_text, text, uni_text
+from dmgen import canon, pick, small, surrogate_text, text, uni_text
 
 PID = "C32"
 LEVEL = "exploration"
@@ -66,9 +66,38 @@ def _g_piece(rnd):
     return surrogate_text(rnd, 1, 6)
 
 
+_PNAMES = ["charset", "charset", "charset", "Charset", "CHARSET", "charSet"]
+_XPARAMS = ["foo=bar", "boundary=xyz", "q=0.5", 'title="a b"', "format=flowed", "x"]
+_SEPS = ["; ", "; ", ";", " ; ", ";\t", " ;"]
+
+
+def _g_spelling(rnd):
+    """how the charset parameter is spelled inside the Content-Type value (all legal per RFC 9110 5.6.6 / 8.3.1:
+    case-insensitive parameter name, token or quoted-string value, other parameters around it, OWS around ';')"""
+    if rnd.random() < 0.4:
+        return None                       # the plain "type/subtype; charset=x" form
+    return [pick(rnd, _PNAMES), rnd.random() < 0.25,
+            [pick(rnd, _XPARAMS) for _ in range(small(rnd, 2))], [pick(rnd, _XPARAMS) for _ in range(small(rnd, 2))],
+            rnd.randrange(len(_SEPS))]
+
+
 def build(rnd):
     s = canon("".join(_g_piece(rnd) for _ in range(rnd.randint(1, 6))))
-    return [rnd.random() < 0.5, pick(rnd, TYPES), pick(rnd, CHARSETS), pick(rnd, _CODINGS), s]
+    return [rnd.random() < 0.5, pick(rnd, TYPES), pick(rnd, CHARSETS), pick(rnd, _CODINGS), s, _g_spelling(rnd)]
+
+
+def _content_type(mtype, charset, spelling):
+    if mtype is None:
+        return None
+    if spelling is None:
+        return mtype if charset is None else "%s; charset=%s" % (mtype, charset)
+    pname, quoted, pre, post, sep = spelling
+    sep = _SEPS[sep % len(_SEPS)]
+    params = list(pre)
+    if charset is not None:
+        params.append('%s="%s"' % (pname, charset) if quoted and '"' not in charset else "%s=%s" % (pname, charset))
+    params += list(post)
+    return mtype + "".join(sep + p for p in params)
 
 
 def run(ctx):
@@ -76,17 +105,49 @@ def run(ctx):
 
 
 # ------------------------------------------------------------------ independent helpers
-def _charset_of(ct):
-    """charset parameter of a Content-Type value (own reader: split on ';', first 'charset' parameter, OWS stripped)"""
+def _params(ct):
+    """own Content-Type parameter reader: ';'-separated (quoted strings respected), OWS trimmed, names lower-cased
+    (RFC 9110 5.6.6: parameter names are case-insensitive), quoted-string values unquoted -> [(name, value)]"""
     if ct is None:
-        return None
-    parts = ct.split(";")
+        return []
+    parts, cur, inq, esc = [], [], False, False
+    for ch in ct:
+        if inq:
+            cur.append(ch)
+            if esc:
+                esc = False
+            elif ch == "\\":
+                esc = True
+            elif ch == '"':
+                inq = False
+        elif ch == '"':
+            inq = True
+            cur.append(ch)
+        elif ch == ";":
+            parts.append("".join(cur))
+            cur = []
+        else:
+            cur.append(ch)
+    parts.append("".join(cur))
+    out = []
     for p in parts[1:]:
-        if "=" in p:
-            k, v = p.split("=", 1)
-            if k.strip().lower() == "charset":
-                return v.strip()
-    return None
+        if "=" not in p:
+            continue
+        k, v = p.split("=", 1)
+        v = v.strip(" \t")
+        if len(v) >= 2 and v[0] == '"' and v[-1] == '"':
+            v = re.sub(r"\\(.)", r"\1", v[1:-1])
+        out.append((k.strip(" \t").lower(), v))
+    return out
+
+
+def _charsets(ct):
+    return [v for k, v in _params(ct) if k == "charset"]
+
+
+def _charset_of(ct):
+    cs = _charsets(ct)
+    return cs[0] if cs else None
 
 
 def _codec(name):
@@ -138,11 +199,10 @@ def _mk(is_req, fields):
 
 
 def check_case(case, ctx):
-    is_req, mtype, charset, coding, s = case
-    if mtype is None:
-        ct = None
-    else:
-        ct = mtype if charset is None else "%s; charset=%s" % (mtype, charset)
+    is_req, mtype, charset, coding, s = case[:5]
+    spelling = case[5] if len(case) > 5 else None
+    ct = _content_type(mtype, charset, spelling)
+    pname = spelling[0] if spelling and charset is not None else "charset"
     fields = []
     if ct is not None:
         fields.append((b"Content-Type", ct.encode()))
@@ -190,6 +250,8 @@ def check_case(case, ctx):
     else:
         ctx.cls("plain-ascii")
     ctx.cls("type:%s" % mtype)
+    if spelling:
+        ctx.cls("spelling:name=%s%s%s" % (spelling[0], ",quoted" if spelling[1] else "", ",extra" if spelling[2] or spelling[3] else ""))
     if lenient:
         ctx.cls("read-back-lenient")
 
@@ -201,10 +263,10 @@ def check_case(case, ctx):
                 bucket = "bom:written-by-%s-codec-not-stripped" % _codec(declared).name
             else:
                 bucket = "bom:lookalike-bytes-sniffed-as-%s" % bom
-        elif not declared and _decl_family(mtype or "", s):
+        elif (not declared or pname != "charset") and _decl_family(mtype or "", s):
             bucket = "in-body-declaration:%s" % _decl_family(mtype or "", s)
         else:
-            bucket = "roundtrip:%s:%s:%s" % (mtype, charset, tclass)
+            bucket = "roundtrip:%s:%s:%s%s" % (mtype, charset, tclass, "" if pname == "charset" else ":" + pname)
         ctx.fail(bucket, "Content-Type %r, text %r -> body %r -> text %r (Content-Type now %r)"
                  % (ct, s[:60], raw[:60], back if not isinstance(back, str) else back[:60], m.headers.get("content-type")))
         return
@@ -216,14 +278,20 @@ def check_case(case, ctx):
     if not effective or "/" not in (mtype or ""):
         return  # no (usable) declaration: nothing the header could contradict (defaults are mitmproxy's choice)
     if not _can_encode(s, effective):
-        now = _charset_of(m.headers.get("content-type"))
-        ok = now is not None and _codec(now) is not None
-        if ok:
+        # every charset parameter left in the header (names compared case-insensitively) must be able to represent s:
+        # a recipient may pick any of them, a stale one next to the new one still mis-declares the body
+        now = _charsets(m.headers.get("content-type"))
+        ok = bool(now)
+        for c in now:
+            if _codec(c) is None:
+                ok = False
+                continue
             try:
-                s.encode(now, "surrogateescape")
+                s.encode(c, "surrogateescape")
             except ValueError:
                 ok = False
         ctx.cls("charset-updated")
         if not ok:
-            ctx.fail("charset-not-updated:%s" % charset,
-                     "declared charset %r cannot represent %r, header afterwards: %r" % (declared, s[:40], m.headers.get("content-type")))
+            ctx.fail("charset-not-updated:%s" % (charset if pname == "charset" else "param-name-case"),
+                     "declared charset %r cannot represent %r, header before %r, afterwards %r"
+                     % (declared, s[:40], ct, m.headers.get("content-type")))
